@@ -714,6 +714,9 @@ class Interp:
         return set(self.eval(e, fr) for e in node.elts)
 
     def e_Dict(self, node, fr):
+        hook = getattr(self.registry, "empty_dict_model", None) if self.registry is not None else None
+        if hook is not None and not node.keys:
+            return hook(self)  # the harness abstracts the dictionary built by the function under contract
         d = {}
         for k, v in zip(node.keys, node.values):
             d[self.eval(k, fr)] = self.eval(v, fr)
